@@ -61,7 +61,7 @@ pub struct SrcLog {
     pub zero_len_offers: u64,
     /// cumulative delivered count after each successful read (only if `record_boundaries`)
     pub boundaries: Vec<usize>,
-    /// (offered, result) of each call: result >= 0 bytes, -1 interrupted, -2 error (if `record_calls`)
+    /// (offered, result) of each call: result >= 0 bytes, -1 interrupted, -2 error, -3 lying read (if `record_calls`)
     pub call_log: Vec<(usize, i64)>,
     /// (stream offset, bytes written) of reads whose return value lied
     pub lies: Vec<(usize, usize)>,
@@ -245,6 +245,11 @@ impl Read for Src {
                 // claims more than the slice it was given; the n bytes really written are
                 // recorded as a rejected delivery
                 s.log.lies.push((off, n));
+                if s.record_calls {
+                    if let Some(last) = s.log.call_log.last_mut() {
+                        last.1 = -3;
+                    }
+                }
                 return Ok(buf.len() + lie);
             }
         }
